@@ -31,7 +31,15 @@ pub fn gen_library(seed: u64, n: usize) -> BTreeMap<String, String> {
         let dir = Key::from_file_name(&k).parent();
         let rel = |j: usize| Key::from_file_name(&key(j)).to_rel_link_url(&dir);
         // duplicate titles and equal ranks on purpose: ties are where a missing tie-break shows
-        let title = if i % 7 == 0 { "Same title".to_string() } else { format!("Title {}", i % 40) };
+        let title = if i % 7 == 0 {
+            "Same title".to_string()
+        } else if i % 11 == 5 {
+            // a link with stale text inside the note's first heading: the title other notes show for
+            // this note must not depend on whether the link's target was loaded before or after it
+            format!("About [old name {}]({})", i, rel((i * 7 + 3) % n))
+        } else {
+            format!("Title {}", i % 40)
+        };
         let mut t = format!("# {}\n\ntext of note {} [link]({})\n", title, i, rel(rng.gen_range(0..n)));
         for c in [2 * i + 1, 2 * i + 2] {
             if c < n {
